@@ -2,11 +2,14 @@
 
 proof:          Props/C01.v (reachable_valid, commit_valid, one new file per digest ...)
 correspondence: per-step refinement of generated histories (Corr/CheckStage.v): the model applied to the
-                implementation's own pre-state must equal its post-state (dedup as a relation)
+                implementation's own pre-state must equal its post-state (dedup as a relation);
+                file-system level (vplib/commitabs.py, Model/CommitAbs.v c01_fs_check): for every successful commit
+                the hypotheses of C01_commit_yields_written_object on the abstracted REAL pre-state, written_by_rocflb
+                of the abstracted REAL post-state, and the model's fault-free run against the real result
 search:         after every commit / upgrade / purge the independent validator (vplib/ocflv.py) on every
                 object and on the storage root, plus the structural clauses of the property
 """
-from vplib import common, histcheck, histeval
+from vplib import commitabs, common, histcheck, histeval
 
 
 def hook(run, st):
@@ -21,7 +24,14 @@ def hook(run, st):
 def run(ctx):
     proof = common.proof_stage(ctx)
     n, length = (16, 45) if ctx.quick() else (160, 60)
-    ctx.assumptions.append("file-system clauses (no stray file / empty directory, version inventories) are decided by the direct search on executed histories; the theorems cover the manifest/state algebra")
+    # file-system level stage: collects the commits of the histories below through the step hook and is evaluated
+    # (inside Coq) when run_history_check merges it into the evidence, i.e. after the histories and before finish
+    fs = commitabs.FsStage(ctx, 400 if ctx.quick() else 1500)
+
+    def hook2(run_, st):
+        hook(run_, st)
+        fs.hook(run_, st)
+    ctx.assumptions.append("file-system clauses: proved for the fault-free commit of the protocol model (C01_commit_yields_written_object, C01_reachable_tree_valid) under commit_pre + commit_pre_tree, which the correspondence evaluates on every real pre-state; storage root files, layout placement, purge and operations under faults are decided by the direct search on executed histories (and by C04/C05/C11/C12)")
     return histcheck.run_history_check(
-        ctx, proof, hook, n, length, final_commit=True,
+        ctx, proof, hook2, n, length, final_commit=True, extra_evidence=fs,
         rule="adaptive random histories over 3 object ids x rotating configurations (8 layout variants, spec 1.0/1.1, sha256/512, content dir, padding, external staging, fresh handle); distinct = distinct (operation, arguments, result class); NotFound steps are trivial")
